@@ -104,7 +104,7 @@ func newCloud(w *World) *Cloud {
 
 func (c *Cloud) alloc4(eni string) netip.Addr {
 	ip := netip.MustParseAddr("10.0.0.10")
-	for c.used4[ip] {
+	for c.used4[ip] || (!c.w.cfg.Recycle && c.hist[ip] != nil) {
 		ip = ip.Next()
 	}
 	c.used4[ip] = true
@@ -114,7 +114,7 @@ func (c *Cloud) alloc4(eni string) netip.Addr {
 
 func (c *Cloud) alloc6(eni string) netip.Addr {
 	ip := netip.MustParseAddr("fd00:db8::10")
-	for c.used6[ip] {
+	for c.used6[ip] || (!c.w.cfg.Recycle && c.hist[ip] != nil) {
 		ip = ip.Next()
 	}
 	c.used6[ip] = true
